@@ -110,6 +110,11 @@ func genDocURL(t *rapid.T, label string, tok string, where string, opt DocURLOpt
 	return u
 }
 
+// NoPath reports whether the URL has no path at all ("https://host", possibly with query or fragment).
+func (u DocURL) NoPath() bool {
+	return strings.HasPrefix(u.Shape, "root") && !strings.HasPrefix(u.Shape, "rootslash")
+}
+
 func docTok(n int) string { return "k" + strconv.Itoa(n) + "q" }
 
 // DocURLClasses returns histogram labels for a planted set.
